@@ -9,7 +9,8 @@
 //     threads    tbb::global_control::max_allowed_parallelism
 //     delaymode  d + 10*v ; d: 0 none, 1 random spin 0-50us, 2 heavy-tailed (1/12: 1-3 ms), 3 reverse-biased (early
 //                items slow), 4 sleep/yield based ; v: 0 items carried as std::size_t ids (id 0 is a null void* inside
-//                TBB), 1 items carried as pointers
+//                TBB), 1 items carried as pointers, 2 items carried as a non-trivial 32-byte value (library-allocated tokens; every token must be
+//                destroyed exactly once); the call is spelled (limit,chain) / (limit,chain,context) / variadic / variadic+context by seed % 4
 // stdout per config:
 //   begin <modes> <limit> <items> <threads> <seed> <delaymode>
 //   ib <inv> | ie <inv> <item|-> | b <k> <item> | e <k> <item>      (global log order)
@@ -132,6 +133,24 @@ template <> struct Rep<Item*> {
     static std::size_t id(Item* p) { return p->id; }
 };
 
+// library-allocated tokens: a non-trivially-copyable value larger than a pointer (the filter wrappers allocate, move and destroy it)
+std::atomic<long> g_big_live{0}, g_big_bad{0};
+struct Big {
+    std::size_t id; unsigned magic; char pad[20];
+    static constexpr unsigned ALIVE = 0xB16A11E, DEAD = 0xDEADB16;
+    Big() : id(0), magic(ALIVE) { ++g_big_live; }
+    explicit Big(std::size_t i) : id(i), magic(ALIVE) { ++g_big_live; }
+    Big(const Big& o) : id(o.id), magic(ALIVE) { if (o.magic != ALIVE) ++g_big_bad; ++g_big_live; }
+    Big(Big&& o) noexcept : id(o.id), magic(ALIVE) { if (o.magic != ALIVE) ++g_big_bad; ++g_big_live; }
+    Big& operator=(const Big& o) { if (o.magic != ALIVE || magic != ALIVE) ++g_big_bad; id = o.id; return *this; }
+    ~Big() { if (magic != ALIVE) ++g_big_bad; magic = DEAD; --g_big_live; }
+};
+template <> struct Rep<Big> {
+    static Big make(Run&, std::size_t id) { return Big(id); }
+    static Big none(Run&) { return Big(0); }
+    static std::size_t id(const Big& v) { if (v.magic != Big::ALIVE) ++g_big_bad; return v.id; }
+};
+
 // input body common part: returns true and sets id if an item was produced
 bool input_step(Run& r, tbb::flow_control& fc, std::size_t& id) {
     long inv;
@@ -218,13 +237,19 @@ void run_pipeline(Run& r) {
         });
     }
     std::size_t k = r.nf - 1;
-    tbb::filter<void, void> all = chain & tbb::make_filter<T, void>(mode_of(r.modes[k]), [rp, k](T v) {
+    tbb::filter<T, void> last = tbb::make_filter<T, void>(mode_of(r.modes[k]), [rp, k](T v) {
         std::size_t id = Rep<T>::id(v);
         enter(*rp, k, id);
         delay(*rp, k, id);
         leave(*rp, k, id);
     });
-    tbb::parallel_pipeline(r.limit, all);
+    // every public spelling of the call: (limit, chain) / (limit, chain, context) / variadic (limit, f1, f2) / variadic with context
+    switch (r.seed % 4) {
+    case 0: { tbb::filter<void, void> all = chain & last; tbb::parallel_pipeline(r.limit, all); break; }
+    case 1: { tbb::filter<void, void> all = chain & last; tbb::task_group_context ctx; tbb::parallel_pipeline(r.limit, all, ctx); break; }
+    case 2: tbb::parallel_pipeline(r.limit, chain, last); break;
+    default: { tbb::task_group_context ctx; tbb::parallel_pipeline(r.limit, chain, last, ctx); break; }
+    }
 }
 
 double g_watchdog_s = 60.0;
@@ -256,7 +281,7 @@ void do_run(const char* line) {
     r.nf = r.modes.size();
     bool okm = r.nf >= 1;
     for (char c : r.modes) if (c != 'p' && c != 'i' && c != 'o') okm = false;
-    if (!okm || limit < 1 || threads < 1 || dm < 0 || dm % 10 > 4 || dm / 10 > 1) { std::puts("bad-op"); return; }
+    if (!okm || limit < 1 || threads < 1 || dm < 0 || dm % 10 > 4 || dm / 10 > 2) { std::puts("bad-op"); return; }
     r.limit = limit; r.items = items; r.threads = threads; r.seed = seed; r.dmode = dm % 10;
     bool ptr = dm / 10 == 1;
     r.inside = std::vector<std::atomic<int>>(r.nf);
@@ -286,7 +311,8 @@ void do_run(const char* line) {
     });
     {
         tbb::global_control gc(tbb::global_control::max_allowed_parallelism, (std::size_t)threads);
-        if (ptr) run_pipeline<Item*>(r); else run_pipeline<std::size_t>(r);
+        g_big_live = 0; g_big_bad = 0;
+        if (dm / 10 == 2) run_pipeline<Big>(r); else if (ptr) run_pipeline<Item*>(r); else run_pipeline<std::size_t>(r);
         {
             std::lock_guard<std::mutex> lk(wmu);
             finished = true;
@@ -304,6 +330,10 @@ void do_run(const char* line) {
         if (l != 0) {
             std::ostringstream o; o << l << " emitted item(s) have not left the last filter at return";
             r.violation("return-before-drain", o.str());
+        }
+        if (g_big_live.load() != 0 || g_big_bad.load() != 0) {
+            std::ostringstream o; o << g_big_live.load() << " library-allocated token(s) alive after return, " << g_big_bad.load() << " use(s) of a destroyed / never constructed token";
+            r.violation("token-lifecycle", o.str());
         }
         for (std::size_t k = 0; k < r.nf; ++k)
             if (r.inside[k].load() != 0) {
